@@ -2,11 +2,14 @@
 Real callVariant vs the Lean definition Spec.callVariant on generated inputs (dense variant
 clusters, both strands, coding/non-coding, cds_start_NF, mRNA_end_NF, selenoproteins);
 node-collapsing parameters must not change the output."""
-from . import common, cv_checks
+from . import common, cv_checks, translate_direct
 from .cv_checks import KF_EXC, KF_NOLA, KF_WIDE, KF_NESTED, KF_NESTED_EDGE
 
 
 KF_SECANCHOR = 'sec-codon-touched-by-anchor-unlabelled-stop'
+# worker seeds of the fusion stream (cv_backbone.fusion_worker) that reproduce the open finding
+# frameshifts-in-both-retained-stretches-of-fusion on the unchanged tree
+FUSION_WITNESS_SEEDS = (274891154, 337466784, 151238392)
 KF_NOLA_MISC = 'no-lookahead-enzyme-miscleaved-missing'
 
 
@@ -318,7 +321,9 @@ def run(ctx: common.Ctx):
         'callVariant vs Spec.callVariant evaluated by the native Lean driver over ALL compatible '
         'subsets of the usable records; half of the cases are re-run with other node-collapsing '
         'parameters; plus two-gene inputs with ONE fusion (exonic / intronic breakpoints, coding and '
-        'non-coding donors), single-gene inputs with ONE circRNA / ciRNA, and two-gene inputs with a fusion AND a circRNA of the donor (three GVF files), each with small records: real '
+        'non-coding donors; 70% of the fusions with a SHORT retained intronic stretch of 8-45 nt on the donor and / or accepter side, '
+        '60% of the inputs with a retained stretch carry 1-3 SNV / insertion / deletion records INSIDE it, >= 2 nt from its ends, half of '
+        'those one more record on the accepter right behind the breakpoint; mapped onto the backbone by the harness), single-gene inputs with ONE circRNA / ciRNA, and two-gene inputs with a fusion AND a circRNA of the donor (three GVF files), each with small records: real '
         'FASTA vs union of Spec.callVariant per transcript and Spec.callBackbone / Spec.callCirc. '
         'non-trivial = definition or tool reports >= 1 peptide. Layer G: in the trypsin-noexc and '
         'all-enzymes streams the graphs the real run built after create_variant_graph / fit_into_codons / '
@@ -336,7 +341,19 @@ def run(ctx: common.Ctx):
         'the frame root, per frame active from the start; graphs with more than 12 distinct records skipped) '
         'against Tvg.attachedSubs of the model graph (Props.C01.tvg_attached_subs_spec), prefixed by whether '
         'the input satisfies Tvg.poolInputOk (evaluated independently in Python on the real call arguments); '
-        'non-trivial = some path takes two or more records')
+        'non-trivial = some path takes two or more records. Layer G, function level, third stage (internal '
+        'stream G-translate): for every case of the three stage-dumping streams the graph the real '
+        'ThreeFrameTVG.translate FINDS (dumped on entry: DNA, typed out-edges in set order, variant and matched '
+        'locations, level, branch, orf, reading_frames, has_known_orf, seq.orf, sect_variants, mrna_end_nf) is run '
+        'through Translate.translateGraph (Model/Translate.lean) and compared with a snapshot of the graph the '
+        'real call RETURNS (before create_cleavage_graph), nodes named by the input node they were translated '
+        'from (node-level wrappers of TVGNode.translate / PVGNode.split_node), with sequence, frame, truncated, '
+        'variant locations and offsets, selenocysteine positions, level, edges, reading_frames, known_orf; '
+        'non-trivial = some node carries a variant. Internal stream G-translate-direct: the real stages '
+        'init_three_frames / create_variant_graph / fit_into_codons / translate called in-process on 24-75 nt '
+        'transcripts with ARBITRARY annotations (CDS end on a stop codon / another codon / out of frame, 0-3 Sec '
+        'annotations on planted in-frame TGA, TGA in any frame or any position, sorted or not, mRNA_end_NF, '
+        'non-coding) and 0-5 SNV / insertion / deletion records, half of them next to a Sec codon or the CDS end')
     ctx.coverage['rule'] += (
         '. Internal streams hap-enumerators / hap-enumerators-tx: generated record pools of 0-14 records '
         '(ties in start, adjacent, overlapping, duplicate, zero-length and stop < start records; with a '
@@ -361,6 +378,9 @@ def run(ctx: common.Ctx):
     # … and its path language: the record lists of all maximal paths of the real graph vs
     # `Tvg.attachedSubs` of the model's graph (Props.C01.tvg_attached_subs_spec)
     cv_checks.judge_tvglang(ctx, res)
+    # Layer G, function level, third stage: the peptide graph the real `translate` returned vs
+    # `Translate.translateGraph` (Model/Translate.lean) on the dumped input of the real call
+    cv_checks.judge_translate(ctx, res)
     res = cv_checks.explore(ctx, ctx.n(120, 2000), dict(base, exception='auto'))
     judge(ctx, res, 'trypsin-exc')
     stats2 = dict(ctx.coverage['worker_stats'])
@@ -368,6 +388,7 @@ def run(ctx: common.Ctx):
                             dict(base, exception=None, enzymes=cv_checks.enzymes_all(), stages=True))
     judge(ctx, res, 'all-enzymes')
     cv_checks.judge_checkpoints(ctx, res, 'missing')
+    cv_checks.judge_translate(ctx, res)
     stats3 = dict(ctx.coverage['worker_stats'])
     # every record of the case on or next to ONE special codon (Sec / first codon / stop codon /
     # exon junction), half of them exactly on its edges; Sec termination mostly on
@@ -375,12 +396,6 @@ def run(ctx: common.Ctx):
                             dict(base, exception=None, per_tx=(1, 4), special=['sec', 'sec', 'start', 'stop', 'junction'], sec_near_start=0.6, coding_only=True))
     judge(ctx, res, 'special-codons')
     stats4 = dict(ctx.coverage['worker_stats'])
-    # Met>Lys at an internal methionine that starts a tryptic product (…K|M…): the variant peptide is
-    # the reference product minus its first residue — not canonical (canonical set = Lean digest model)
-    res = cv_checks.explore(ctx, ctx.n(140, 2000),
-                            dict(base, exception=None, per_tx=(0, 2), max_size=4, as_frac=0.0, internal_met=1.0,
-                                 junction_mnv=0.0, coding_only=True, variations=[], stages=False, tvgbuild=False))
-    judge(ctx, res, 'internal-met-to-lys')
     # Sec termination inside the START node: Sec a few codons behind the ATG with no K / R in between, a
     # long in-frame 5'UTR run without K / R / stop in front of the ATG (the start codon lies in the
     # second half of its node), records between the ATG and the Sec, SECT on
@@ -394,9 +409,12 @@ def run(ctx: common.Ctx):
     res = cv_checks.explore(ctx, ctx.n(60, 1500), dict(base, exception=None, per_tx=(1, 4), as_frac=1.0, nested_frac=1.0, stages=True))
     judge(ctx, res, 'nested-in-splicing')
     cv_checks.judge_checkpoints(ctx, res, 'missing')
+    cv_checks.judge_translate(ctx, res)
     stats5 = dict(ctx.coverage['worker_stats'])
-    for kind, n in (('fusion', ctx.n(90, 1500)), ('circ', ctx.n(90, 1500)), ('combo', ctx.n(70, 1200))):
-        bres = cv_checks.explore_backbone(ctx, kind, n, dict(exception=None))
+    for kind, n in (('fusion', ctx.n(110, 1800)), ('circ', ctx.n(90, 1500)), ('combo', ctx.n(70, 1200))):
+        # fusion: + the witness inputs of the open finding frameshifts-in-both-retained-stretches-of-fusion
+        bres = cv_checks.explore_backbone(ctx, kind, n, dict(exception=None),
+                                          extra_seeds=FUSION_WITNESS_SEEDS if kind == 'fusion' else ())
         for r in bres:
             if 'crash' in r:
                 ctx.evaluated(kind, str(r['seed']), True, None)
@@ -408,6 +426,19 @@ def run(ctx: common.Ctx):
             ctx.evaluated(kind, str(r['seed']), bool(r['S'] or r['real_set']),
                           dict(r['desc'], n_expected=len(r['S']), n_reported=len(r['real_set'])))
             missing = r['S'] - r['real_set']
+            if r.get('stats', {}).get('with_records_in_retained_stretch'):
+                ctx.count(kind, 'with_records_in_retained_intronic_stretch')
+                ctx.count(kind, 'records_in_retained_intronic_stretch', r['stats']['records_in_retained_stretch'])
+                ctx.count(kind, 'frameshifting_records_in_retained_intronic_stretch',
+                          r['stats'].get('frameshifting_in_retained_stretch', 0))
+            known = cv_checks.fusion_both_fs_missing(ctx, r, missing) if missing else set()
+            if known:
+                ctx.add_violation(
+                    f'{len(known)} peptide(s) of the fusion definition that need a frameshifting record of the LEFT '
+                    f'and of the RIGHT retained intronic stretch are missing, e.g. {sorted(known)[:3]}',
+                    dict(r['desc'], kind='missing-' + kind, missing=sorted(known)[:20]),
+                    finding_key=cv_checks.KF_FUSION_FS)
+                missing = missing - known
             if missing:
                 d_ = r['desc']
                 sec_end = kind in ('fusion', 'combo') and d_.get('breakpoint_tx') is not None and any(
@@ -418,13 +449,17 @@ def run(ctx: common.Ctx):
                                                                missing=sorted(missing)[:20]),
                     finding_key='sec-codon-ends-at-fusion-breakpoint' if sec_end else None)
     cv_checks.fusion_pairs(ctx, ctx.n(40, 600))
+    # Layer G, function level, third stage, DIRECT: the real stages called in-process on small
+    # transcripts with ARBITRARY annotations (CDS end on a stop codon or not, Sec annotations on
+    # in-frame TGA / out of frame / anywhere, mRNA_end_NF): real `translate` vs `Translate.translateGraph`
+    translate_direct.run_stream(ctx, ctx.n(4000, 60000))
     # binding node-collapsing parameters on indel-rich clusters: nothing may be lost
     cv_checks.collapse_stream(ctx, ctx.n(240, 3000), 'lost')
     ctx.coverage['worker_stats'] = {'trypsin-noexc': stats, 'trypsin-exc': stats2,
                                     'all-enzymes': stats3, 'special-codons': stats4,
                                     'nested-in-splicing': stats5}
     ctx.assumptions += [
-        'PARTIAL: of the graph construction only create_variant_graph on small records is modelled function by function (Model/Tvg.lean, tied structurally by the G-tvgbuild stream and, for its path language, by the G-tvglang stream; for the model the language theorem Props.C01.tvg_create_variant_graph_language_eq is proved); the later stages (fit_into_codons, translate, cleavage graph, traversal) are tied to the definition only by '
+        'PARTIAL: of the graph construction create_variant_graph on small records (Model/Tvg.lean, tied structurally by the G-tvgbuild stream and, for its path language, by the G-tvglang stream; language theorem Props.C01.tvg_create_variant_graph_language_eq) and translate for linear transcripts (Model/Translate.lean, tied by the G-translate / G-translate-direct streams; structure and language theorems Props.C01.translate_paths / translate_language_eq / translate_cp3_of_cp2) are modelled function by function; the other stages (fit_into_codons, cleavage graph, traversal) are tied to the definition only by '
         'this differential and the Layer G checkpoints. Alternative-splicing records are in (without nested intronic variants); fusion and circRNA backbones have their own streams (one fusion / one circRNA per input, assembled by the harness from the record fields).',
         'transcript-level inputs of the definition come through the repository loaders '
         '(VariantRecordPool.load_variants, get_transcript_sequence): covered by C11/C13/C14',
